@@ -13,6 +13,7 @@ def sh(cmd, env=None):
     return p.returncode, p.stdout
 
 TRY_ONLY = '--try-only' in sys.argv
+CONFIRM_ONLY = '--confirm-only' in sys.argv  # parallelisable: set VP_CONFIRM_WT to a private scratch worktree
 for sd in [a for a in sys.argv[1:] if not a.startswith('--')]:
     sd = os.path.abspath(sd)
     mp = os.path.join(sd, "meta.json")
@@ -32,15 +33,16 @@ for sd in [a for a in sys.argv[1:] if not a.startswith('--')]:
       v["confirm_result"] = line[-1] if line else out[-300:]
       v["confirmed"] = ok(line)
     runs = []
-    for pid in [prop] + meta.get("also_try", []):
+    for pid in ([] if CONFIRM_ONLY else [prop] + meta.get("also_try", [])):
         rc, out = sh(f"/verif/selftest/try_seed.sh {pid} {sd}")
         keys = sorted(set(re.findall(r"^FAIL key=(\S+)", out, re.M)))
         cases = re.findall(r"^case: (.*)$", out, re.M)[:2]
         m = re.search(r"check exit=(\d+)", out)
         runs.append(dict(check=f"./check {pid} --tier quick", exit=int(m.group(1)) if m else None, violation="VIOLATION" in out, keys=keys, first_cases=cases))
-    v["check_runs"] = runs
-    v["caught"] = any(r["violation"] and r["exit"] == 1 for r in runs)
+    if not CONFIRM_ONLY:
+        v["check_runs"] = runs
+        v["caught"] = any(r["violation"] and r["exit"] == 1 for r in runs)
     v["date"] = time.strftime("%Y-%m-%d")
     meta["verif"] = v
     json.dump(meta, open(mp, "w"), indent=1)
-    print(os.path.basename(sd), "confirmed=%s caught=%s" % (v["confirmed"], v["caught"]), [(r["check"].split()[1], r["keys"][:2]) for r in runs], flush=True)
+    print(os.path.basename(sd), "confirmed=%s caught=%s" % (v.get("confirmed"), v.get("caught")), [(r["check"].split()[1], r["keys"][:2]) for r in runs], flush=True)
